@@ -67,3 +67,14 @@ CASES += [
       "            expKd_step = scipy.linalg.expm(self.KK*timeaxis.step)",
       "            if getattr(self, \"_estep\", None) is None:\n                self._estep = scipy.linalg.expm(self.KK*timeaxis.step)\n            expKd_step = self._estep"),
 ]
+
+CASES += [
+    m("rate matrix keeps the array it was given (the repaired defect)", "C17-A", RM,
+      "            data = numpy.array(data, dtype=numpy.float64)\n", ""),
+    m("rate matrix takes the element type of what it was given", "C17-A", RM,
+      "            data = numpy.array(data, dtype=numpy.float64)\n", "            data = numpy.array(data)\n"),
+    m("rate matrix converts without copying", "C17-A", RM,
+      "            data = numpy.array(data, dtype=numpy.float64)\n", "            data = numpy.array(data, dtype=numpy.float64, copy=False)\n"),
+    t("rate matrix copy written with the float builtin", RM,
+      "            data = numpy.array(data, dtype=numpy.float64)\n", "            data = numpy.array(data, dtype=float)\n"),
+]
